@@ -115,7 +115,7 @@ CHECKS = {
     "C20": dict(
         engine="S-style", category="exploration", design="3/C20",
         technique="exhaustive enumeration of environment-answer scripts replayed by the mock and by a plain struct implementing the upstream trait (differential), plus the complete entry-point wiring table",
-        text="Wiring: all 83 methods of all mirrored traits (core fmt/hash, std error/io, tokio io, futures io, embedded-hal delay/digital/i2c/pwm/spi): a mock with a logging clause on every method; each method called through the upstream trait logs exactly itself. Composition: every script of length <= 3 (quick) / 4 (thorough) over chunk sizes {0,1,2,3}, payload chunks, Interrupted, Other through write_all/write_vectored/write!/flush, read_exact/read_to_end/read_to_string/read_vectored, read_until/read_line, rewind/stream_position, Hasher::write_*, format!, DelayNs::delay_us/ms, set_state, toggle, I2c read/write/write_read, SetDutyCycle::*, SpiDevice::*, tokio/futures vectored polls, strict and partial: identical results, buffers and required-method call sequences (thorough: scripts <= 5). Also: the drivers on a clone living on another thread with report() on the original; provided methods that are mocked themselves (matching input: configured response; unmatched input on a strict mock: loud failure; no required-method call either way); 2 000 / 12 000-chunk scripts through read_until on 64 / 256 KiB stacks (child process); Debug and Display of self inside a delegated default body of a user trait; no_verify_in_drop + provided method + verify(); Error::source lending a derived mock. Clause scripts written as one flat tuple of every arity 2..16 and as nested tuples, and a counted any-order clause at every position among ordered steps, driven through write_all. A scripted tail the provided method never asks for leaves an unmet expectation (as the plain struct keeps an unconsumed script entry).",
+        text="Wiring: all 83 methods of all mirrored traits (core fmt/hash, std error/io, tokio io, futures io, embedded-hal delay/digital/i2c/pwm/spi): a mock with a logging clause on every method; each method called through the upstream trait logs exactly itself. Composition: every script of length <= 3 (quick) / 7 (thorough; embedded-hal drivers <= 4) over chunk sizes {0,1,2,3}, payload chunks, Interrupted, Other through write_all/write_vectored/write!/flush, read_exact/read_to_end/read_to_string/read_vectored, read_until/read_line, rewind/stream_position, Hasher::write_*, format!, DelayNs::delay_us/ms, set_state, toggle, I2c read/write/write_read, SetDutyCycle::*, SpiDevice::*, tokio/futures vectored polls, strict and partial: identical results, buffers and required-method call sequences. Also: the drivers on a clone living on another thread with report() on the original; provided methods that are mocked themselves (matching input: configured response; unmatched input on a strict mock: loud failure; no required-method call either way); 2 000 / 12 000-chunk scripts through read_until on 64 / 256 KiB stacks (child process); Debug and Display of self inside a delegated default body of a user trait; no_verify_in_drop + provided method + verify(); Error::source lending a derived mock. Clause scripts written as one flat tuple of every arity 2..16 and as nested tuples, and a counted any-order clause at every position among ordered steps, driven through write_all. A scripted tail the provided method never asks for leaves an unmet expectation (as the plain struct keeps an unconsumed script entry).",
         note="Differential oracle = plain struct sharing the script function with the mock's answers; features mock-core, mock-std, mock-tokio-1, mock-futures-io-0-3, mock-embedded-hal-1."),
 }
 
